@@ -27,7 +27,11 @@ def link_variants(a):
 def gen_case(rng):
     stems = rng.sample(STEMS, rng.randint(2, 6))
     src = stems[0]
-    dst = rng.choice(["renamed", "foo2", "sub/moved", src + "_new", "x", "bar2"])
+    base = src.rsplit("/", 1)[-1]
+    # also: the same base name in another directory (a move between directories)
+    dst = rng.choice(["renamed", "foo2", "sub/moved", src + "_new", "x", "bar2", "arch/" + base, base if "/" in src else "sub/" + base])
+    if dst == src:
+        dst = "renamed"
     files = {}
     for st in stems:
         ext = ".zo" if st == src else rng.choice(EXTS)
@@ -50,6 +54,8 @@ def gen_case(rng):
     # destination directory must exist
     if "/" in dst:
         files.setdefault(os.path.dirname(dst) + "/keep.zo", "# k\n")
+    if dst + ".zo" in files or any(k.rsplit(".", 1)[0] == dst for k in files):
+        dst = "renamed"            # the destination must be free (the property does not speak of overwriting a page)
     style = rng.choice(["plain", "ext"])
     return {"files": files, "src": src + (".zo" if style == "ext" else ""), "dst": dst + (".zo" if style == "ext" else "")}
 
